@@ -1,10 +1,17 @@
 import ScrutModel.Lemmas.Exec
+import ScrutModel.Lemmas.TestRunProps
 /-!
 # C05 — A test passes only if it completed with the expected exit code and accepted output
 
 `validate` is `TestCase::validate`; `selected tc o` says whether the configured stream of output
 `o` is accepted by the expectations of `tc` (i.e. `hasDiff (diff …) = false`, see C01/C03).
 `execAll`/`runDocument` are the executor loop and the result mapping of `scrut test`.
+
+The second half (`C05_integrated_…`, `C05_document_…`) states the property about the INTEGRATED
+model of `scrut test` (`Model/TestRun.lean`), which the correspondence stream `e2e-testdoc` ties to
+the binary: "accepted" is no longer a Boolean handed in, it is `accepts t.exps s = some true` on the
+compiled expectations `t.exps` of the document's test and the recorded bytes `s` of the stream the
+test's configuration selects (`selectedStream t r`: `render_output` of what the command wrote).
 -/
 namespace Scrut.Props.C05
 open Scrut.Exec
@@ -37,5 +44,123 @@ theorem C05_succeeded_only_if_ran (total : Option Nat) (runner : Runner) (tcs : 
 /-! Non-vacuity -/
 example : validate ⟨some 3, .stderr, none, none, true⟩ ⟨.code 3, false, true⟩ = .ok := by decide
 example : validate ⟨none, .stdout, none, none, true⟩ ⟨.unknown, true, true⟩ = .internal := by decide
+
+/-! ## through the composition: `scrut test` on one document (`Model/TestRun.lean`) -/
+
+section Integrated
+open Scrut.TestRun
+
+/-- **C05, integrated** (no false success): if `scrut test` reports test `i` of a document as
+`success`, then the command of test `i` ended with the expected exit code (0 when none is written)
+and the recorded bytes of the stream selected by the test's `output_stream` are accepted by the
+test's compiled expectations; moreover no test of the document ended with its skip code. -/
+theorem C05_integrated_no_false_success {tests : List Test} {runs : List Ran}
+    {outcomes : List Outcome} {status i : Nat}
+    (h : runTests tests runs = .report outcomes status) (hi : (i, Verdict.ok) ∈ outcomes) :
+    ∃ (t : Test) (r : Ran), tests[i]? = some t ∧ runs[i]? = some r ∧
+      r.code = t.expected.getD 0 ∧
+      (∃ s, selectedStream t r = some s ∧ accepts t.exps s = some true) ∧
+      skips tests runs = false :=
+  runTests_ok_sound h hi
+
+/-- **C05, integrated, converse** (no false failure of the glue): in a reported document in which
+no test ended with its skip code, a test whose command ended with the expected exit code and whose
+selected stream is accepted IS reported `success`. -/
+theorem C05_integrated_success_complete {tests : List Test} {runs : List Ran}
+    {outcomes : List Outcome} {status i : Nat} {t : Test} {r : Ran}
+    (h : runTests tests runs = .report outcomes status)
+    (hs : skips tests runs = false) (ht : tests[i]? = some t) (hr : runs[i]? = some r)
+    (hc : r.code = t.expected.getD 0)
+    (hacc : ∃ s, selectedStream t r = some s ∧ accepts t.exps s = some true) :
+    (i, Verdict.ok) ∈ outcomes :=
+  runTests_ok_complete h hs ht hr hc hacc
+
+/-- **C05, integrated, every verdict**: in such a document `(i, v)` is reported iff `v` is
+`verdict tests[i] runs[i]` -- wrong exit code before anything else, then `success` iff the selected
+stream is accepted, else `malformed` output. -/
+theorem C05_integrated_verdict_iff {tests : List Test} {runs : List Ran}
+    {outcomes : List Outcome} {status : Nat} (h : runTests tests runs = .report outcomes status)
+    (hs : skips tests runs = false) (i : Nat) (v : Verdict) :
+    (i, v) ∈ outcomes ↔
+      ∃ (t : Test) (r : Ran), tests[i]? = some t ∧ runs[i]? = some r ∧ v = verdict t r :=
+  runTests_verdict_iff h hs i v
+
+/-- `verdict t r` is `success` iff expected exit code and accepted selected stream -/
+theorem C05_verdict_ok_iff (t : Test) (r : Ran) :
+    verdict t r = .ok ↔
+      r.code = t.expected.getD 0 ∧
+        ∃ s, selectedStream t r = some s ∧ accepts t.exps s = some true :=
+  verdict_ok_iff t r
+
+/-- **C05 from the bytes of the document** (no false success): `tests` are the prepared tests of
+the document (`DocTests`: read, parsed, configured, compiled as `scrut test` does). -/
+theorem C05_document_no_false_success {bytes : Bytes} {runs : List Ran} {outcomes : List Outcome}
+    {status i : Nat} (h : testDocumentBytes bytes runs = .report outcomes status)
+    (hi : (i, Verdict.ok) ∈ outcomes) :
+    ∃ (tests : List Test) (t : Test) (r : Ran), DocTests bytes tests ∧
+      tests[i]? = some t ∧ runs[i]? = some r ∧ r.code = t.expected.getD 0 ∧
+      (∃ s, selectedStream t r = some s ∧ accepts t.exps s = some true) ∧
+      skips tests runs = false :=
+  testDocumentBytes_ok_sound h hi
+
+/-- **C05 from the bytes of the document**, converse -/
+theorem C05_document_success_complete {bytes : Bytes} {runs : List Ran} {outcomes : List Outcome}
+    {status i : Nat} {tests : List Test} {t : Test} {r : Ran}
+    (h : testDocumentBytes bytes runs = .report outcomes status) (hd : DocTests bytes tests)
+    (hs : skips tests runs = false) (ht : tests[i]? = some t) (hr : runs[i]? = some r)
+    (hc : r.code = t.expected.getD 0)
+    (hacc : ∃ s, selectedStream t r = some s ∧ accepts t.exps s = some true) :
+    (i, Verdict.ok) ∈ outcomes :=
+  testDocumentBytes_ok_complete h hd hs ht hr hc hacc
+
+/-- **C05, single-script executor** (`runScript`: Cram documents, `--cram-compat`), no false
+success through the divider protocol, for a script that runs to its end (no command leaves the
+shell with `exit N`) under `keep_crlf: true` (the Cram default: `render_output` of the whole stream
+is the identity): a test reported `success` ended with the expected exit code, and the bytes its OWN
+command wrote (`scriptSelected`: its stderr under `output_stream: stderr`, else its stdout, under
+`combined` its stdout followed by its stderr) are accepted by its expectations.  NOT proved without
+the two guards (the statement is not known to be false there; the correspondence streams cover it). -/
+theorem C05_script_no_false_success {tests : List Test} {runs : List SRan}
+    {outcomes : List Outcome} {status i : Nat} (h : runScript tests runs = .report outcomes status)
+    (hleave : ∀ r ∈ runs.take tests.length, r.leaves = false)
+    (hkeep : ∀ cfg, compileTestcase tests = some cfg → cfg.keepCrlf = some true)
+    (hlen : tests.length ≤ 2 ^ 64) (hi : (i, Verdict.ok) ∈ outcomes) :
+    ∃ (t : Test) (r : SRan) (cfg : Compiled), tests[i]? = some t ∧ runs[i]? = some r ∧
+      compileTestcase tests = some cfg ∧ r.ran.code = t.expected.getD 0 ∧
+      accepts t.exps (scriptSelected cfg t r) = some true :=
+  runScript_ok_sound h hleave hkeep hlen hi
+
+/-- … from the bytes of a Cram document (`CramDocTests`: read, parsed with indentation 2, prepared) -/
+theorem C05_cram_document_no_false_success {bytes : Bytes} {runs : List SRan}
+    {outcomes : List Outcome} {status i : Nat}
+    (h : testCramDocumentBytes bytes runs = .report outcomes status)
+    (hi : (i, Verdict.ok) ∈ outcomes) :
+    ∃ tests, CramDocTests bytes tests ∧
+      ((∀ r ∈ runs.take tests.length, r.leaves = false) →
+       (∀ cfg, compileTestcase tests = some cfg → cfg.keepCrlf = some true) →
+       tests.length ≤ 2 ^ 64 →
+       ∃ (t : Test) (r : SRan) (cfg : Compiled), tests[i]? = some t ∧ runs[i]? = some r ∧
+         compileTestcase tests = some cfg ∧ r.ran.code = t.expected.getD 0 ∧
+         accepts t.exps (scriptSelected cfg t r) = some true) :=
+  testCramDocumentBytes_ok_sound h hi
+
+/-! Non-vacuity, evaluated by the kernel from the bytes of a document with two test cases (the
+second: `{output_stream: stderr}`, glob + optional expectation, `[3]`): both `success` (the second
+command wrote `x` to stdout and `bb\r\n` to stderr and ended with 3); with a second line on stderr
+the second test is `malformed`. -/
+example : testDocumentBytes exBytes exRuns = .report [(0, .ok), (1, .ok)] 0 := ex_report
+example : testDocumentBytes exBytes exRunsBad = .report [(0, .ok), (1, .malformed)] 50 := ex_report_bad
+example : DocTests exBytes exTests := ex_docTests
+example : skips exTests exRuns = false := by decide
+/-- a Cram document with two test cases (`exCramBytes`), its prepared tests, a report with a
+`success`, and the guards of `C05_script_no_false_success` -/
+example : testCramDocumentBytes exCramBytes exCramRuns = .report [(0, .ok), (1, .invalidExit 0 1)] 50 :=
+  ex_cram_report
+example : CramDocTests exCramBytes exCramTests := ex_cramDocTests
+example : (∀ r ∈ exCramRuns.take exCramTests.length, r.leaves = false) ∧
+    (∀ cfg, compileTestcase exCramTests = some cfg → cfg.keepCrlf = some true) ∧
+    exCramTests.length ≤ 2 ^ 64 := ex_cram_guards
+
+end Integrated
 
 end Scrut.Props.C05
